@@ -505,6 +505,13 @@ func (w *Worker) RunCase(cs *Case, rep *Report) {
 	if only := os.Getenv("VERIF_ONLY"); only != "" && !strings.Contains(cs.Name, only) {
 		return
 	}
+	// enough is enough: once 25 counterexamples are confirmed the verdict is
+	// settled; the remaining cases are skipped (and said so) instead of paying
+	// for, e.g., one native timeout per case when the code under test hangs
+	if rep.violationCount() >= 25 {
+		rep.skipAfterEnough()
+		return
+	}
 	progs := []*Program{cs.Prog}
 	for _, v := range cs.Variants {
 		if v.Prog != nil {
@@ -718,7 +725,9 @@ func (w *Worker) handleViolation(cs *Case, x *OracleCtx, v *Violation, rep *Repo
 		return true
 	}
 	rep.violation(f)
-	return true
+	// an instance of a listed known finding does not end the case: a different
+	// violation on another path must still be reported
+	return f.Known == ""
 }
 
 func (w *Worker) Replay(cs *Case, values map[int]string, srcOf map[*Program]string) (bool, *Violation, map[string]string, map[string]string) {
@@ -855,6 +864,7 @@ type Report struct {
 	CrossSkipped int
 	Completions  int
 	EngineMism   []string
+	SkippedAfterEnough int
 	HistoryDep      int
 	HistoryDepFirst string
 	Violations   []*Finding
@@ -983,6 +993,18 @@ func (r *Report) engineMismatch(s string) {
 func (r *Report) inconclusiveViolation(cs *Case, v *Violation, why string) {
 	r.mu.Lock()
 	r.InconViol = append(r.InconViol, fmt.Sprintf("%s/%s: %s (%s)", cs.Name, v.Sub, v.Msg, why))
+	r.mu.Unlock()
+}
+
+func (r *Report) violationCount() int {
+	r.mu.Lock()
+	defer r.mu.Unlock()
+	return len(r.Violations)
+}
+
+func (r *Report) skipAfterEnough() {
+	r.mu.Lock()
+	r.SkippedAfterEnough++
 	r.mu.Unlock()
 }
 
@@ -1140,6 +1162,9 @@ func (r *Report) Finish(env *Env) int {
 	os.WriteFile(filepath.Join(OutDir, "evidence", r.Property+".json"), b, 0o644)
 	fmt.Printf("%s %s: skeletons=%d paths=%d (inconclusive %d, beyond-bound %d) queries=%d solver=%.1fs cross-checked=%d violations=%d known=%d wall=%.1fs\n",
 		r.Property, r.Tier, r.Cases, r.Paths.Paths, r.Paths.Inconclusive, r.Paths.BeyondBound, r.solverQ, r.solverTime.Seconds(), r.CrossOK, len(r.Violations), len(r.KnownHit), wall)
+	if r.SkippedAfterEnough > 0 {
+		fmt.Printf("NOTE: %d cases were skipped after 25 confirmed counterexamples\n", r.SkippedAfterEnough)
+	}
 	for _, iv := range r.InconViol {
 		fmt.Printf("NOTE: an assertion failed on a path but no counterexample could be produced: %s\n", iv)
 	}
